@@ -150,6 +150,112 @@ func GenRoute(maxN int, rng *rand.Rand, sample int) []*Scn {
 	return out
 }
 
+// ---- focus on widgets that are not part of the drawn frame -------------------
+
+// subtree returns w (1-based) and its descendants.
+func subtree(parent []int, w int) []int {
+	out := []int{w}
+	for i := 0; i < len(out); i++ {
+		for k := range parent {
+			if parent[k] == out[i] {
+				out = append(out, k+1)
+			}
+		}
+	}
+	return out
+}
+
+// GenHidden: bounded-exhaustive focus on undrawn widgets. One session per
+// (tree shape, capture mask, non-root widget d): layout 0 does not draw d (and
+// hence its subtree), layout 1 draws everything (same geometry). For every
+// widget t of d's subtree a handler focuses t while layout 0 is on screen - in
+// the target phase (with consume), by the root in the bubble phase, or by the
+// root in the capture phase (with consume) - and keys with every single
+// consumer (widget, phase) or none plus custom events follow before any frame;
+// then a frame on the same layout, the focus again, the switch to layout 1
+// (the same keys), and the switch back that removes the focused widget from
+// the frame. sample > 0 keeps one in sample of the sessions of size maxN.
+func GenHidden(minN, maxN int, rng *rand.Rand, sample int) []*Scn {
+	var out []*Scn
+	vias := []string{"tgt", "bub", "cap"}
+	for n := minN; n <= maxN; n++ {
+		for _, par := range shapes(n) {
+			for mask := 0; mask < 1<<n; mask++ {
+				for d := 2; d <= n; d++ {
+					if sample > 0 && n == maxN && rng.Intn(sample) != 0 {
+						continue
+					}
+					sc := &Scn{Kind: "hidden-focus", Cols: 24, Rows: 8, Parent: par}
+					for i := 0; i < n; i++ {
+						sc.Caps = append(sc.Caps, mask&(1<<i) != 0)
+					}
+					lay := nestedLayout(par, 24, 8)
+					sc.Lays = [][]Geom{lay, lay}
+					sc.Hid = [][]int{{d}, {}}
+					j := 0
+					for w := 1; w <= n; w++ {
+						for _, ph := range phases {
+							sc.Rules = append(sc.Rules, Rule{W: w, Cls: "k" + string(rune('a'+j)), Ph: ph, Cmd: cmd("consume")})
+							sc.Rules = append(sc.Rules, Rule{W: w, Cls: fmt.Sprintf("u%d", j+1), Ph: ph, Cmd: slice(cmd("consume"))})
+							j++
+						}
+					}
+					for w := 1; w <= n; w++ {
+						// A..: whoever is the target focuses w; F..: the root does, bubbling (or as the target);
+						// U..: the root does, capturing (or whoever is the target, when the root does not capture)
+						sc.Rules = append(sc.Rules, Rule{Cls: "k" + string(rune('A'+w-1)), Ph: "tgt", Cmd: batch(focus(w), cmd("consume"))})
+						sc.Rules = append(sc.Rules, Rule{W: 1, Cls: "k" + string(rune('F'+w-1)), Ph: "bub", Cmd: focus(w)})
+						sc.Rules = append(sc.Rules, Rule{W: 1, Cls: "k" + string(rune('F'+w-1)), Ph: "tgt", Cmd: slice(focus(w), cmd("consume"))})
+						sc.Rules = append(sc.Rules, Rule{W: 1, Cls: "k" + string(rune('U'+w-1)), Ph: "cap", Cmd: batch(cmd("consume"), focus(w))})
+						sc.Rules = append(sc.Rules, Rule{Cls: "k" + string(rune('U'+w-1)), Ph: "tgt", Cmd: batch(cmd("consume"), focus(w))})
+					}
+					sc.Rules = append(sc.Rules, genericRules(2)...)
+					all := func() {
+						for c := 0; c <= j; c++ { // the last one has no consumer
+							sc.Steps = append(sc.Steps, key(string(rune('a'+c))))
+						}
+						for c := 0; c <= j; c += 1 + rng.Intn(3) {
+							sc.Steps = append(sc.Steps, Step{T: "custom", N: c + 1})
+						}
+					}
+					few := func() {
+						sc.Steps = append(sc.Steps, key(string(rune('a'+j))), Step{T: "custom", N: 1 + rng.Intn(j+1)}, key(string(rune('a'+rng.Intn(j)))))
+					}
+					hid := map[int]bool{}
+					for _, t := range subtree(par, d) {
+						hid[t] = true
+					}
+					var vis []int
+					for w := 1; w <= n; w++ {
+						if !hid[w] {
+							vis = append(vis, w)
+						}
+					}
+					for ti, t := range subtree(par, d) {
+						via := vias[(ti+mask+d)%3]
+						fk := map[string]rune{"tgt": 'A', "bub": 'F', "cap": 'U'}[via] + rune(t-1)
+						// from a drawn focus position to the undrawn widget, no frame in between
+						f := vis[rng.Intn(len(vis))]
+						sc.Steps = append(sc.Steps, key(string(rune('A'+f-1))), key("R"), key(string(fk)))
+						all()
+						// a frame that still does not contain the focused widget
+						sc.Steps = append(sc.Steps, key("R"))
+						few()
+						// focused while undrawn, then drawn by the next frame
+						sc.Steps = append(sc.Steps, key(string(fk)), key(string(rune('a'+j))), key("1"))
+						all()
+						// the focused widget disappears from the frame
+						sc.Steps = append(sc.Steps, key("0"))
+						few()
+					}
+					out = append(out, sc)
+				}
+			}
+		}
+	}
+	return out
+}
+
 // ---- random sessions ---------------------------------------------------------
 
 func overlap(a, b Geom) bool {
@@ -212,7 +318,9 @@ func randCmd(rng *rand.Rand, n int, depth int, allowFocus bool) *CmdD {
 	}
 }
 
-func GenRandom(rng *rand.Rand, count int) []*Scn {
+// GenRandom: hidden = some widgets are not drawn in some layouts (kind
+// "random-hidden": more layouts, focus keys and layout switches).
+func GenRandom(rng *rand.Rand, count int, hidden bool) []*Scn {
 	var out []*Scn
 	for i := 0; i < count; i++ {
 		n := 1 + rng.Intn(7)
@@ -227,8 +335,23 @@ func GenRandom(rng *rand.Rand, count int) []*Scn {
 			sc.Caps = append(sc.Caps, rng.Intn(3) == 0)
 		}
 		nlay := 1 + rng.Intn(3)
+		if hidden && nlay == 1 {
+			nlay = 2
+		}
 		for k := 0; k < nlay; k++ {
 			sc.Lays = append(sc.Lays, randLayout(rng, par, cols, rows, tidy && k == 0))
+		}
+		if hidden {
+			sc.Kind = "random-hidden"
+			sc.Hid = make([][]int, nlay)
+			for k := 0; k < nlay; k++ {
+				sc.Hid[k] = []int{}
+				for w := 2; w <= n; w++ {
+					if rng.Intn(3) == 0 {
+						sc.Hid[k] = append(sc.Hid[k], w)
+					}
+				}
+			}
 		}
 		classes := []string{"init", "u1", "u2", "mp0", "mr0", "mm3", "mm0", "mp64", "enter", "leave", "fin", "fout"}
 		for _, k := range keyLetters {
@@ -263,6 +386,19 @@ func GenRandom(rng *rand.Rand, count int) []*Scn {
 		}
 		sc.Rules = append(sc.Rules, genericRules(nlay)...)
 		for s := 0; s < 4+rng.Intn(16); s++ {
+			if hidden && rng.Intn(3) == 0 {
+				// focus a widget (drawn or not), perhaps switch the layout, then a key or a custom event
+				sc.Steps = append(sc.Steps, key(string(rune('A'+rng.Intn(n)))))
+				if rng.Intn(2) == 0 {
+					sc.Steps = append(sc.Steps, key(fmt.Sprint(rng.Intn(nlay))))
+				}
+				if rng.Intn(2) == 0 {
+					sc.Steps = append(sc.Steps, Step{T: "custom", N: 1 + rng.Intn(2)})
+				} else {
+					sc.Steps = append(sc.Steps, key(keyLetters[rng.Intn(len(keyLetters))]))
+				}
+				continue
+			}
 			switch x := rng.Intn(20); {
 			case x < 5:
 				sc.Steps = append(sc.Steps, key(keyLetters[rng.Intn(len(keyLetters))]))
@@ -343,5 +479,17 @@ func Fixed() []*Scn {
 	out = append(out, base("fixed-custom", []bool{true, false, true, false},
 		[]Rule{{W: 2, Cls: "u1", Ph: "bub", Cmd: cmd("consume")}, {Cls: "kA", Ph: "tgt", Cmd: batch(focus(4), cmd("consume"))}, {W: 1, Cls: "u2", Ph: "cap", Cmd: slice(cmd("consume"), cmd("redraw"))}},
 		Step{T: "custom", N: 1}, key("A"), key("R"), Step{T: "custom", N: 1}, Step{T: "custom", N: 2}, Step{T: "custom", N: 3}))
+	// a handler focuses a dialog (4) that only the next layout draws: the keys that arrive before that frame
+	// go to the dialog and not along the route of the last frame; when the dialog disappears again while
+	// focused the focus may move on, with one focus-out and one focus-in
+	dp := []int{0, 1, 2, 1} // 1 -> {2 -> {3}, 4}
+	dl := nestedLayout(dp, 20, 6)
+	out = append(out, &Scn{Kind: "fixed-focus-undrawn", Cols: 20, Rows: 6, Parent: dp, Caps: []bool{true, true, false, false},
+		Lays: [][]Geom{dl, dl}, Hid: [][]int{{4}, {}},
+		Rules: append([]Rule{{W: 1, Cls: "init", Ph: "tgt", Cmd: focus(3)}, {W: 1, Cls: "kn", Ph: "bub", Cmd: focus(4)}, {W: 1, Cls: "kn", Ph: "tgt", Cmd: slice(focus(4), cmd("consume"))},
+			{W: 4, Cls: "kn", Ph: "tgt", Cmd: batch(focus(3), cmd("consume"))}, {W: 4, Cls: "u2", Ph: "tgt", Cmd: cmd("consume")},
+			{W: 1, Cls: "kz", Ph: "cap", Cmd: cmd("consume")}}, genericRules(2)...),
+		Steps: []Step{key("y"), key("n"), key("y"), Step{T: "custom", N: 1}, Step{T: "custom", N: 2}, key("z"), key("1"), key("y"), Step{T: "custom", N: 1},
+			key("0"), key("y"), key("n"), key("y"), key("R"), key("y"), key("n"), key("n"), key("y"), key("n"), key("1"), key("y")}})
 	return out
 }
